@@ -58,6 +58,38 @@ def _samples(ctx, n):
     return a
 
 
+def _bounded_exp(ctx, n):
+    """Context manager recording every exp argument inside nessai.posterior / nessai.utils.stats."""
+    import contextlib
+    args = []
+
+    @contextlib.contextmanager
+    def cm():
+        if ctx.mode == "sym":
+            _symnp.HOOKS["exp"] = args.append
+            try:
+                yield args
+            finally:
+                _symnp.HOOKS.pop("exp", None)
+        else:
+            import nessai.posterior as P
+            import nessai.utils.stats as S
+            with _symnp.recording([P, S], {"exp": args.append}):
+                yield args
+    return cm()
+
+
+def _check_bounded(ctx, args, n):
+    snp = _snp(ctx)
+    bound = math.log(n) + 1e-9 if ctx.mode == "conc" else snp.log(n)
+    ok = True
+    for a in args:
+        if isinstance(a, float) and (a == -math.inf or a != a):
+            continue
+        ok = ok & (a <= bound)
+    ctx.prove(len(args) > 0 and ok, "every exponential is taken of a normalised log-weight (<= log n): no overflow or underflow whatever the offset of the weights")
+
+
 def make_rejection(n):
     def body(ctx):
         from nessai import posterior
@@ -73,7 +105,8 @@ def make_rejection(n):
         if ctx.mode == "sym":
             _symnp.symrandom.reset()
             _symnp.symrandom.handlers["rand"] = lambda *shape: uarr.copy()
-            out, idx = posterior.draw_posterior_samples(ns, log_w=arr, method="rejection_sampling", return_indices=True)
+            with _bounded_exp(ctx, n) as eargs:
+                out, idx = posterior.draw_posterior_samples(ns, log_w=arr, method="rejection_sampling", return_indices=True)
             calls = list(_symnp.symrandom.calls)
             _symnp.symrandom.reset()
             ctx.prove(len(calls) == 1 and calls[0][0] == "rand" and tuple(calls[0][1]) == (n,), "one uniform draw per nested sample")
@@ -81,10 +114,12 @@ def make_rejection(n):
             real = np.random.rand
             np.random.rand = lambda *shape: uarr.copy()
             try:
-                out, idx = posterior.draw_posterior_samples(ns, log_w=arr, method="rejection_sampling", return_indices=True)
+                with _bounded_exp(ctx, n) as eargs:
+                    out, idx = posterior.draw_posterior_samples(ns, log_w=arr, method="rejection_sampling", return_indices=True)
             finally:
                 np.random.rand = real
         idx = [int(i) for i in idx]
+        _check_bounded(ctx, eargs, n)
         ctx.prove(all(a < b for a, b in zip(idx, idx[1:])) and all(0 <= i < n for i in idx), "returned indices are distinct valid positions")
         ctx.prove([int(t) for t in out["tag"]] == idx, "posterior samples are the nested samples at the returned indices")
         w = [snp.exp(x) for x in lw]
